@@ -1,4 +1,7 @@
 import OmplModel.Proofs.ControlRRT
+import OmplModel.Proofs.ControlSST
+import OmplModel.Model.ControlExtra
+import OmplModel.Proofs.ControlSamplerReal
 /-!
 # C02 — control propagation: every reported control path replays
 
@@ -254,7 +257,7 @@ theorem interpolate_preserves_replay (step : S → U → S) (valid : S → Bool)
     cases p
     simp only [ofSegs] at *
     simp only [a, b, c, hs]
-  obtain ⟨sl', e1, e2, e3, e4, e5⟩ := interpolate_ofSegs step valid s0 _ hr
+  obtain ⟨sl', e1, e2, e3, e4, e5, _⟩ := interpolate_ofSegs step valid s0 _ hr
   rw [← hp] at e1
   rw [e1]
   refine ⟨sl'.map (·.2.2), rfl, by simp [ofSegs], by simp [ofSegs], ?_, ?_, ?_, ?_⟩
@@ -403,5 +406,229 @@ theorem crrt_tree_sound {δ : Type} (P : Problem S U δ) (starts : List S) (draw
 example : (solve (probN true) [0, 12] scriptN).tree.toList.map (fun m => (m.state, m.parent)) =
     [(0, none), (1, some 0), (2, some 1), (3, some 2), (4, some 3), (5, some 4), (6, some 5)] := by
   decide
+
+/-! ## control::SST::solve
+
+Same oracle-machine setting as for RRT (`Model/CSST.lean`): every `CSST.Problem` (propagator,
+validity, distance, cost algebra, goal, radii), every list of start states and every script of
+draws, hence every interruption point.  The reported path is the snapshot `prevSolution_`. -/
+
+/-- the concrete SST problem of the non-vacuity examples (integrator on `Nat`, valid below 10,
+goal `s = 6`, path length as cost) -/
+def sstN : CSST.Problem Nat Nat Nat :=
+  { step := stepN, valid := validN, dist := distN, lt := ltN, le := fun a b => decide (a ≤ b),
+    inf := 1000, zero := 0, add := (· + ·), motionCost := distN, costSatisfied := fun _ => false,
+    goal := fun s => (decide (s = 6), distN s 6), goalSample := 6, nullControl := 0,
+    selectionRadius := 2, pruningRadius := 1 }
+
+def sstScript : List (CSST.Draw Nat Nat) :=
+  [{ useGoal := false, sample := 3, control := 1, steps := 3 },
+   { useGoal := true, sample := 0, control := 1, steps := 3 }]
+
+/-- **Every path reported by SST replays**: it starts at a valid start state, has matching
+lengths, each control applied for its whole step count reproduces the next state exactly with
+every intermediate step valid, and every (control, step count) is exactly one scripted draw (SST
+keeps a motion only when `propagateWhileValid` achieved the full sampled count). -/
+theorem csst_path_replays {δ : Type} (P : CSST.Problem S U δ) (starts : List S)
+    (draws : List (CSST.Draw S U)) (p : Path S U) (h : (CSST.solve P starts draws).path = some p) :
+    ∃ s0 rest, p.states = s0 :: rest ∧ s0 ∈ starts ∧ P.valid s0 = true ∧
+      rest.length = p.controls.length ∧ p.steps.length = p.controls.length ∧
+      ReplayOK P.step P.valid s0 (segs rest p.controls p.steps) ∧
+      ∀ u k s', (u, k, s') ∈ segs rest p.controls p.steps →
+        ∃ d ∈ draws, d.control = u ∧ d.steps = k := by
+  obtain ⟨_, ⟨s0, sl, rfl, h1, h2, h3, _, h5⟩, _⟩ := CSST.solve_path P starts draws p h
+  refine ⟨s0, sl.map (·.2.2), rfl, h1, h2, by simp [ofSegs], by simp [ofSegs], ?_, ?_⟩
+  · simp only [ofSegs, segs_map]; exact h3
+  · intro u k s' hm
+    simp only [ofSegs, segs_map] at hm
+    exact h5 _ hm
+
+/-- **An exact SST solution ends in the goal.** -/
+theorem csst_exact_goal {δ : Type} (P : CSST.Problem S U δ) (starts : List S)
+    (draws : List (CSST.Draw S U)) (p : Path S U) (h : (CSST.solve P starts draws).path = some p)
+    (hex : (CSST.solve P starts draws).status = .exact) :
+    ∃ last, p.states.getLast? = some last ∧ (P.goal last).1 = true := by
+  obtain ⟨last, ⟨s0, sl, rfl, _, _, _, h4, _⟩, hg⟩ := CSST.solve_path P starts draws p h
+  exact ⟨last, by rw [← h4]; exact getLast?_states s0 sl, hg hex⟩
+
+/-- **SST reports a path exactly when the status is exact or approximate** (the snapshot exists
+whenever `solution`/`approxsol` is set). -/
+theorem csst_status_path {δ : Type} (P : CSST.Problem S U δ) (starts : List S)
+    (draws : List (CSST.Draw S U)) :
+    ((CSST.solve P starts draws).status = .exact ∨ (CSST.solve P starts draws).status = .approximate) ↔
+      (CSST.solve P starts draws).path.isSome = true :=
+  CSST.solve_status_path P starts draws
+
+/-- non-vacuity: an exact SST path with two 3-step segments (proved by unfolding — `decide`
+cannot evaluate the merge sort of `selectNode`) -/
+example : (CSST.solve sstN [0] sstScript).status = .exact ∧
+    (CSST.solve sstN [0] sstScript).path.map (fun p => (p.states, p.controls, p.steps)) =
+      some ([0, 3, 6], [1, 1], [3, 3]) := by
+  simp [CSST.solve, CSST.run, CSST.iter, CSST.init, CSST.addRoot, CSST.selectNode, CSST.withDist,
+    CSST.sortByDist, CSST.findClosestWitness, CSST.nearestIdx, pwv, pwvLoop, reported, chain, pathOf,
+    sstN, sstScript, stepN, validN, distN, ltN, List.mergeSort, List.MergeSort.Internal.splitInTwo]
+
+/-- interrupted after one iteration: an approximate path -/
+example : (CSST.solve sstN [0] (sstScript.take 1)).status = .approximate ∧
+    (CSST.solve sstN [0] (sstScript.take 1)).path.map (fun p => (p.states, p.controls, p.steps)) =
+      some ([0, 3], [1], [3]) := by
+  simp [CSST.solve, CSST.run, CSST.iter, CSST.init, CSST.addRoot, CSST.selectNode, CSST.withDist,
+    CSST.sortByDist, CSST.findClosestWitness, CSST.nearestIdx, pwv, pwvLoop, reported, chain, pathOf,
+    sstN, sstScript, stepN, validN, distN, ltN]
+
+/-- **every motion SST ever created is sound** (roots are valid start states; any other motion is
+the exact, all-valid propagation of an earlier motion under exactly one scripted draw) -/
+theorem csst_tree_sound {δ : Type} (P : CSST.Problem S U δ) (starts : List S)
+    (draws : List (CSST.Draw S U)) (i : Nat) (m : Motion S U)
+    (h : (CSST.solve P starts draws).final.tree[i]? = some m) :
+    P.valid m.state = true ∧
+    ((m.parent = none ∧ m.state ∈ starts) ∨
+     (∃ p pm, m.parent = some p ∧ p < i ∧ (CSST.solve P starts draws).final.tree[p]? = some pm ∧
+        m.state = propagate P.step pm.state m.control m.steps ∧
+        (∀ j, 1 ≤ j → j ≤ m.steps → P.valid (propagate P.step pm.state m.control j) = true) ∧
+        ∃ d ∈ draws, d.control = m.control ∧ d.steps = m.steps)) := by
+  have hT := (CSST.solve_final_inv P starts draws).tree
+  refine ⟨treeInvG_valid _ _ _ _ _ hT (i + 1) i m (Nat.lt_succ_self i) h, ?_⟩
+  cases hT i m h with
+  | inl h => exact Or.inl ⟨h.1, h.2.1⟩
+  | inr h =>
+    obtain ⟨p, pm, h1, h2, h3, h4, h5, h6⟩ := h
+    exact Or.inr ⟨p, pm, h1, h2, h3, h4, h5, h6⟩
+
+/-- **as coded, SST never prunes**: the guard of the pruning loop reads `inactive_` before anything
+sets it, so for every run no motion is ever deactivated and `nn_` holds every motion ever created,
+in creation order. -/
+theorem csst_never_prunes {δ : Type} (P : CSST.Problem S U δ) (starts : List S)
+    (draws : List (CSST.Draw S U)) :
+    (∀ i, (CSST.solve P starts draws).final.inactive.getD i false = false) ∧
+    (CSST.solve P starts draws).final.nn = List.range (CSST.solve P starts draws).final.tree.size := by
+  have h := CSST.solve_final_inv P starts draws
+  exact ⟨fun i => by rw [Array.getD_eq_getD_getElem?]; exact h.inact i, h.nn⟩
+
+/-- a run in which a representative *is* replaced (unit cost per motion, `pruningRadius = 0`: the
+witness at state 2 first gets the motion reached via 0→1→2 at cost 2, then the direct motion 0→2 at
+cost 1), the situation in which the C++ loop was meant to prune — and nothing is pruned -/
+def sstUnit : CSST.Problem Nat Nat Nat :=
+  { sstN with motionCost := fun _ _ => 1, pruningRadius := 0 }
+
+def sstScript3 : List (CSST.Draw Nat Nat) :=
+  [{ useGoal := false, sample := 1, control := 1, steps := 1 },
+   { useGoal := false, sample := 3, control := 1, steps := 1 },
+   { useGoal := false, sample := 0, control := 2, steps := 1 }]
+
+example :
+    (CSST.solve sstUnit [0] sstScript3).final.tree.toList.map (fun m => (m.state, m.parent)) =
+      [(0, none), (1, some 0), (2, some 1), (2, some 0)] ∧
+    (CSST.solve sstUnit [0] sstScript3).final.wits.toList.map (fun w => (w.state, w.rep)) =
+      [(0, some 0), (1, some 1), (2, some 3)] ∧
+    (CSST.solve sstUnit [0] sstScript3).final.nn = [0, 1, 2, 3] ∧
+    (CSST.solve sstUnit [0] sstScript3).final.inactive.toList = [false, false, false, false] := by
+  simp [CSST.solve, CSST.run, CSST.iter, CSST.init, CSST.addRoot, CSST.selectNode, CSST.withDist,
+    CSST.sortByDist, CSST.findClosestWitness, CSST.nearestIdx, CSST.pruneLoop, pwv, pwvLoop, reported,
+    chain, pathOf, sstUnit, sstN, sstScript3, stepN, validN, distN, ltN, List.mergeSort,
+    List.MergeSort.Internal.splitInTwo]
+
+/-- **every path SST reports passes `PathControl::check`, before and after `interpolate`**. -/
+theorem csst_path_checks [DecidableEq S] {δ : Type} (P : CSST.Problem S U δ) (starts : List S)
+    (draws : List (CSST.Draw S U)) (p : Path S U) (h : (CSST.solve P starts draws).path = some p) :
+    p.check P.step P.valid (fun a b => decide (a = b)) = true ∧
+    (p.interpolate P.step).check P.step P.valid (fun a b => decide (a = b)) = true := by
+  obtain ⟨s0, rest, h1, _, h3, h4, h5, h6, _⟩ := csst_path_replays P starts draws p h
+  refine ⟨check_complete P.step P.valid p s0 rest h1 h4 h5 h6 h3, ?_⟩
+  obtain ⟨rest', e1, e2, e3, e4, _⟩ := interpolate_preserves_replay P.step P.valid p s0 rest h1 h4 h5 h6
+  exact check_complete P.step P.valid _ s0 rest' e1 e2 e3 e4 h3
+
+/-! ## PathControl::asGeometric -/
+
+/-- **asGeometric yields a valid one-step chain**: for a well-formed replayable path from a valid
+first state, the geometric path starts at the same state, consecutive states are exactly one
+propagation step apart under one of the path's controls (or equal, for a 0-step segment), every
+state is valid, the last state is the last state of the control path, and its length is one more
+than the number of interpolated segments, i.e. `1 + Σ max 1 steps`. -/
+theorem asGeometric_spec (step : S → U → S) (valid : S → Bool) (p : Path S U)
+    (s0 : S) (rest : List S) (hs : p.states = s0 :: rest) (hl1 : rest.length = p.controls.length)
+    (hl2 : p.steps.length = p.controls.length)
+    (hr : ReplayOK step valid s0 (segs rest p.controls p.steps)) (hv0 : valid s0 = true) :
+    ∃ rest', p.asGeometric step = s0 :: rest' ∧
+      (∀ (i : Nat) (a b : S), (p.asGeometric step)[i]? = some a →
+        (p.asGeometric step)[i + 1]? = some b → (∃ u ∈ p.controls, b = step a u) ∨ b = a) ∧
+      (∀ s ∈ p.asGeometric step, valid s = true) ∧
+      (p.asGeometric step).getLast? = p.states.getLast? ∧
+      (p.asGeometric step).length = (p.interpolate step).controls.length + 1 ∧
+      (p.asGeometric step).length = 1 + (p.steps.map (max 1 ·)).sum := by
+  obtain ⟨a, b, c⟩ := maps_segs rest p.controls p.steps hl1 hl2
+  have hp : p = ofSegs s0 (segs rest p.controls p.steps) := by
+    cases p
+    simp only [ofSegs] at *
+    simp only [a, b, c, hs]
+  obtain ⟨sl', e1, e2, e3, e4, _, e6, e7⟩ := interpolate_ofSegs step valid s0 _ hr
+  rw [← hp] at e1
+  unfold Path.asGeometric
+  rw [e1]
+  refine ⟨sl'.map (·.2.2), rfl, ?_, ?_, ?_, by simp [ofSegs], ?_⟩
+  · intro i x y hx hy
+    rcases adjacent_ofSegs step valid sl' s0 e2 e4 i x y hx hy with ⟨z, hz, hzy⟩ | h
+    · exact Or.inl ⟨z.1, by rw [← b]; exact e6 z hz, hzy⟩
+    · exact Or.inr h
+  · exact replayOK_states_valid step valid sl' s0 e2 hv0
+  · have : p.states.getLast? = some (endState s0 (segs rest p.controls p.steps)) := by
+      have h := getLast?_states s0 (segs rest p.controls p.steps)
+      rw [a] at h
+      rw [hs]; exact h
+    rw [this, ← e3]
+    exact getLast?_states _ _
+  · show (s0 :: sl'.map (·.2.2)).length = _
+    have hc2 : (segs rest p.controls p.steps).map (fun x => max 1 x.2.1) = p.steps.map (max 1 ·) := by
+      have := congrArg (List.map (max 1 ·)) c
+      rw [List.map_map] at this
+      exact this
+    rw [List.length_cons, List.length_map, e7, hc2]; omega
+
+example : ({ states := [0, 3, 3, 4], controls := [1, 2, 1], steps := [3, 0, 1] } : Path Nat Nat).asGeometric stepN
+    = [0, 1, 2, 3, 3, 4] := by decide
+
+/-! ## the control sampler at exact real arithmetic ([EX])
+
+`ControlReal.uniformRealR / ctlSampleR / uniformIntR` are the model functions `uniformReal`,
+`ctlSample`, `uniformInt` of `Model/ControlExtra.lean` instantiated at `ℝ`.  These theorems are about
+*exact* arithmetic: the IEEE rounding of `(hi - lo) * r + lo` in the `Float` run is executed by the
+lock-step driver, not verified here. -/
+
+open OmplModel.ControlReal in
+/-- **`RNG::uniformReal(lo, hi)` stays in `[lo, hi]`** (and below `hi` when the interval is proper)
+for every raw draw `r ∈ [0, 1)`. -/
+theorem uniformReal_mem (lo hi r : ℝ) (h : lo ≤ hi) (h0 : 0 ≤ r) (h1 : r < 1) :
+    lo ≤ uniformRealR lo hi r ∧ uniformRealR lo hi r ≤ hi ∧ (lo < hi → uniformRealR lo hi r < hi) :=
+  uniformReal_bounds lo hi r h h0 h1
+
+open OmplModel.ControlReal in
+example : uniformRealR 1 3 (1 / 2) = 2 := by rw [uniformReal_eq]; norm_num
+
+open OmplModel.ControlReal in
+/-- **the sampled control is inside the control bounds**: `RealVectorControlUniformSampler::sample`
+writes one value per dimension and component `i` lies in `[low[i], high[i]]` (below `high[i]` when
+`low[i] < high[i]`), for all raw draws in `[0, 1)`. -/
+theorem ctlSampler_inbounds (lo hi rs : List ℝ) (h1 : hi.length = lo.length)
+    (h2 : rs.length = lo.length)
+    (hb : ∀ (i : Nat) (l h : ℝ), lo[i]? = some l → hi[i]? = some h → l ≤ h)
+    (hr : ∀ r ∈ rs, 0 ≤ r ∧ r < 1) :
+    (ctlSampleR lo hi rs).length = lo.length ∧
+    ∀ (i : Nat) (l h x : ℝ), lo[i]? = some l → hi[i]? = some h → (ctlSampleR lo hi rs)[i]? = some x →
+      l ≤ x ∧ x ≤ h ∧ (l < h → x < h) :=
+  ctlSample_bounds lo hi rs h1 h2 hb hr
+
+open OmplModel.ControlReal in
+example : ctlSampleR [0, 1] [2, 1] [1 / 2, 0] = [1, 1] := by
+  simp only [ctlSampleR, ctlSample]
+  rw [show @uniformReal ℝ numReal 0 2 (1 / 2) = 1 by rw [← uniformRealR, uniformReal_eq]; norm_num,
+    show @uniformReal ℝ numReal 1 1 0 = 1 by rw [← uniformRealR, uniformReal_eq]; norm_num]
+
+open OmplModel.ControlReal in
+/-- **`RNG::uniformInt(lo, hi)` (the sampled step count) stays in `[lo, hi]`**. -/
+theorem uniformInt_range (lo hi : Int) (r : ℝ) (h : lo ≤ hi) (h0 : 0 ≤ r) (h1 : r < 1) :
+    lo ≤ uniformIntR lo hi r ∧ uniformIntR lo hi r ≤ hi :=
+  uniformInt_bounds lo hi r h h0 h1
+
+example : (1 : Int) ≤ 20 ∧ (0 : ℝ) ≤ 1 / 2 ∧ (1 / 2 : ℝ) < 1 := by norm_num
 
 end OmplModel.Props.C02
